@@ -10,6 +10,7 @@ from pv import build, gen
 from pv.engine import Clause, Ctx
 
 gen.DEGENERATE_WF = True
+gen.INTERP_KWARGS = True
 TWO_PI = 2 * math.pi
 RULE = (
     "Every waveform class x every duration 1..40 (exhaustive, several parameter "
@@ -132,7 +133,7 @@ def check_wf(case, ctx: Ctx):
         tol = 1e-8 * max(1.0, float(np.max(np.abs(vals))))
         if np.max(np.abs(x[pts] - vals)) > tol:
             ctx.fail(C, "interp_points", f"{x[pts]} vs {vals}")
-        if x.max() > vals.max() + tol or x.min() < vals.min() - tol:
+        if not s.get("ikw") and (x.max() > vals.max() + tol or x.min() < vals.min() - tol):
             ctx.fail(C, "interp_overshoot", f"[{x.min()},{x.max()}] outside [{vals.min()},{vals.max()}]")
     if abs(w.integral * 1e3 - x.sum()) > 1e-9 * max(1.0, np.abs(x).sum()):
         ctx.fail(C, "integral", f"{w.integral*1e3} vs {x.sum()}")
